@@ -98,7 +98,8 @@ macro "reg_norm" : tactic => `(tactic| simp only [
   setUsage_nodes, setUsage_links, setUsage_patterns, setUsage_curves, setUsage_sources, setUsage_controls, setUsage_typed, setUsage_nextUid, setTyped_nodes, setTyped_links, setTyped_patterns, setTyped_curves, setTyped_sources, setTyped_controls, setTyped_usage, setTyped_nextUid, addUsage_nodes, addUsage_links, addUsage_patterns, addUsage_curves, addUsage_sources, addUsage_controls, addUsage_typed, addUsage_nextUid, addUsageO_nodes, addUsageO_links, addUsageO_patterns, addUsageO_curves, addUsageO_sources, addUsageO_controls, addUsageO_typed, addUsageO_nextUid, removeUsageT_nodes, removeUsageT_links, removeUsageT_patterns, removeUsageT_curves, removeUsageT_sources, removeUsageT_controls, removeUsageT_typed, removeUsageT_nextUid, popUsageKey_nodes, popUsageKey_links, popUsageKey_patterns, popUsageKey_curves, popUsageKey_sources, popUsageKey_controls, popUsageKey_typed, popUsageKey_nextUid, typedAdd_nodes, typedAdd_links, typedAdd_patterns, typedAdd_curves, typedAdd_sources, typedAdd_controls, typedAdd_usage, typedAdd_nextUid, typedDiscard_nodes, typedDiscard_links, typedDiscard_patterns, typedDiscard_curves, typedDiscard_sources, typedDiscard_controls, typedDiscard_usage, typedDiscard_nextUid, typedAddAll_nodes, typedAddAll_links, typedAddAll_patterns, typedAddAll_curves, typedAddAll_sources, typedAddAll_controls, typedAddAll_usage, typedAddAll_nextUid, typedDiscardAll_nodes, typedDiscardAll_links, typedDiscardAll_patterns, typedDiscardAll_curves, typedDiscardAll_sources, typedDiscardAll_controls, typedDiscardAll_usage, typedDiscardAll_nextUid, setNode_links, setNode_patterns, setNode_curves, setNode_sources, setNode_controls, setNode_usage, setNode_nextUid, setLink_nodes, setLink_patterns, setLink_curves, setLink_sources, setLink_controls, setLink_usage, setLink_nextUid, bumpUid_nodes, bumpUid_links, bumpUid_patterns, bumpUid_curves, bumpUid_sources, bumpUid_controls, bumpUid_usage, bumpUid_typed, dropControls_nodes, dropControls_links, dropControls_patterns, dropControls_curves, dropControls_sources, dropControls_usage, dropControls_typed, dropControls_nextUid, removeUsageO_nodes, removeUsageO_links, removeUsageO_patterns, removeUsageO_curves, removeUsageO_sources, removeUsageO_controls, removeUsageO_typed, removeUsageO_nextUid,
   setCurveTypeR_nodes, setCurveTypeR_links, setCurveTypeR_patterns, setCurveTypeR_curves, setCurveTypeR_sources, setCurveTypeR_controls, setCurveTypeR_usage, setCurveTypeR_nextUid, setCurveTypeOR_nodes, setCurveTypeOR_links, setCurveTypeOR_patterns, setCurveTypeOR_curves, setCurveTypeOR_sources, setCurveTypeOR_controls, setCurveTypeOR_usage, setCurveTypeOR_nextUid,
   removeUserAll_nodes, removeUserAll_links, removeUserAll_patterns, removeUserAll_curves, removeUserAll_sources, removeUserAll_controls, removeUserAll_typed, removeUserAll_nextUid, removeUserAllO_nodes, removeUserAllO_links, removeUserAllO_patterns, removeUserAllO_curves, removeUserAllO_sources, removeUserAllO_controls, removeUserAllO_typed, removeUserAllO_nextUid,
-  mem_removeUserAll, mem_removeUserAllO, List.mem_append, List.mem_filter, List.any_eq_true, Bool.not_eq_true', Bool.not_eq_eq_eq_not, Bool.not_true, decide_eq_true_eq,
+  releaseAll_nodes, releaseAll_links, releaseAll_patterns, releaseAll_curves, releaseAll_sources, releaseAll_controls, releaseAll_typed, releaseAll_nextUid,
+  mem_releaseAll, mem_demandNames, mem_removeUserAll, mem_removeUserAllO, List.mem_append, List.mem_filter, List.any_eq_true, Bool.not_eq_true', Bool.not_eq_eq_eq_not, Bool.not_true, decide_eq_true_eq,
   setNode_nodes', setLink_links', bumpUid_nextUid, mem_setCurveTypeR, mem_setCurveTypeOR, user_eq_mk,
   mem_addUsage, mem_addUsageO, mem_removeUsageT, mem_removeUsageO, mem_popUsageKey, mem_typedAdd, mem_typedDiscard, mem_typedAddAll,
   mem_typedDiscardAll, mem_setNode_typed, mem_setLink_typed, AL.get?_set, AL.get?_del, OSet.mem_add, OSet.mem_discard,
